@@ -68,7 +68,8 @@ def gen_cases(ctx):
             keys = key_family(rng, 8, 0, 12)
             n_ops = int(rng.integers(3, 25))
             hist = [ops.gen_op(rng, keys, max_value=50 if cfg["kind"] in ("log16", "log8") else None) for _ in range(n_ops)]
-            yield {"cfg": cfg, "history": hist, "offsets": "all", "overwrite": bool((i + rd) % 2)}
+            yield {"cfg": cfg, "history": hist, "offsets": "all", "overwrite": bool((i + rd) % 2), "sibling": bool((i + rd) % 3 == 0),
+                   "shm_backed": bool((i + 2 * rd) % 4 == 1)}
     # size-gated code paths (preallocation, chunked writers) only show on large sketches: one file above 1 MiB per class family
     big = [{"kind": "hh", "width": 2048, "depth": 4, "max_key_len": 128}, {"kind": "linear", "width": 70000, "depth": 4},
            {"kind": "log8", "width": 300000, "depth": 4, "max_count": 2**32 - 1, "num_reserved": 15}, {"kind": "hll", "p": 16, "seed": 1}]
@@ -82,7 +83,9 @@ def gen_cases(ctx):
 def run_case(case, ctx, mon):
     cfg = case["cfg"]
     kind = cfg["kind"]
-    sketch = state.make(cfg)
+    sketch = state.make(cfg, shared_memory=bool(case.get("shm_backed")))
+    if case.get("shm_backed"):
+        mon.count("files_saved_from_shared_memory_sketches")
     for op in case["history"]:
         mon.api(ops.apply_op, sketch, op)
     if case.get("embed"):
@@ -147,6 +150,34 @@ def run_case(case, ctx, mon):
                           returned=type(obj).__name__, cfg=cfg,
                           embedded_archive_in_payload=bool(0 <= inner_eocd < outer_eocd and case.get("embed")))
             mon.count("prefixes_tried")
+        if case.get("sibling"):
+            # the complete file exists as <stem>.npz; its prefixes are written to <stem>.part / <stem>.tmp / <stem> beside it
+            import shutil
+
+            d = os.path.dirname(str(path))
+            stem = os.path.join(d, "vmon-sib-%d" % os.getpid())
+            open(stem + ".npz", "wb").write(full)
+            try:
+                for off in sorted({0, 1, 10, size // 3, size // 2, size - 30, size - 2, size - 1} & set(range(size))):
+                    for ext in (".part", ".tmp", "", ".npz.partial"):
+                        trunc = stem + ext
+                        open(trunc, "wb").write(full[:off])
+                        for name, loader in loaders_for(kind):
+                            try:
+                                obj = loader(trunc)
+                            except Exception:  # noqa: BLE001
+                                mon.tick("prefix-must-raise")
+                                continue
+                            mon.check(False, "prefix-must-raise", loader=name, offset=off, file_size=size, returned=type(obj).__name__, cfg=cfg,
+                                      truncated_name=os.path.basename(trunc), complete_sibling=os.path.basename(stem + ".npz"))
+                        os.unlink(trunc)
+                mon.count("files_with_a_complete_sibling")
+            finally:
+                for ext in (".npz", ".part", ".tmp", "", ".npz.partial"):
+                    try:
+                        os.unlink(stem + ext)
+                    except OSError:
+                        pass
         mon.count("files")
         mon.count("files:" + kind)
     finally:
@@ -172,3 +203,5 @@ def floors(mon, ctx):
         mon.floor(f"files of class {k}", mon.counters.get("files:" + k, 0), 1)
     mon.floor("prefix loads", mon.by_clause.get("prefix-must-raise", 0), 5000)
     mon.floor("files saved over an older, larger file", mon.counters["files_saved_over_an_older_larger_file"], 5)
+    mon.floor("files with a complete sibling of the same stem", mon.counters["files_with_a_complete_sibling"], 3)
+    mon.floor("files saved from shared-memory sketches", mon.counters["files_saved_from_shared_memory_sketches"], 3)
